@@ -23,6 +23,7 @@ import GraphiqModel.Proofs.HilbertDimReset
 import GraphiqModel.Proofs.HilbertDimMix
 import GraphiqModel.Proofs.HilbertDimProg
 import GraphiqModel.Proofs.HilbertDimAdjoint
+import GraphiqModel.Proofs.HilbertDimCPTP
 namespace Graphiq.C07
 open Graphiq Graphiq.PRow Graphiq.Tab
 
@@ -1360,5 +1361,22 @@ example : ∃ t, (Prog.seq (Prog.tensor (Prog.seq (Prog.init 2) [.h 0, .cnot 0 1
       [.swap 0 2, .ptrace [0, 1] [true]]).run with | .ok _ => true | .error _ => false) = true := by decide +kernel
     rw [hrun] at this; cases this
   | ok t => exact ⟨t, rfl, (program_tracks_density _ t hw hrun).2.2⟩
+
+/-! ### 7.8 the density-matrix semantics is a semantics of quantum operations -/
+
+open scoped ComplexOrder in
+/-- **`dOp` maps density matrices to density matrices** — on *every* positive semidefinite matrix of trace one, not only on
+    stabilizer states, every in-range API call (`OpInB`: the Python's `assert`s, control ≠ target) returns a positive
+    semidefinite matrix of trace one; so do histories and `tensor`.  (A check of the projectors and normalisations in the
+    definitions of `dOp`, independent of the tableau model.) -/
+theorem api_semantics_is_quantum_operation (op : Tab.Op) (ops : List Tab.Op) (s s' : DState) (hs : IsDensity s)
+    (hs' : IsDensity s') :
+    (OpInB s.n op → IsDensity (dOp op s)) ∧ (OpsInB ops s → IsDensity (dOps ops s)) ∧ IsDensity (dTensor s s') ∧
+    (IsDensity s ↔ s.ρ.PosSemidef ∧ Matrix.trace s.ρ = 1) :=
+  ⟨dOp_isDensity op s hs, dOps_isDensity ops s hs, dTensor_isDensity s s' hs hs', Iff.rfl⟩
+
+/-- the state of every valid tableau is a density matrix, so the theorem applies along every history -/
+example : IsDensity (dstate ghz3) :=
+  ⟨(stabilizer_state_is_pure ghz3 ghz3_valid).2.2.2, (stabilizer_state_is_pure ghz3 ghz3_valid).1⟩
 
 end Graphiq.C07
